@@ -214,16 +214,17 @@ def GetOk (commits : List Commit) (x : Bytes) (plan : Except RErr GetPlan) : SRe
       out = slice k.plain p.rStart (p.rStart + j)
   | .cont _ => False
 
-theorem getObject_ok {A : AEAD} {H : List SealRec} {commits : List Commit}
+theorem getWith_ok {A : AEAD} {H : List SealRec} {commits : List Commit}
     (hI : Ideal A H) (hN : NonceRespecting H) (hH : Honest H commits)
     (strict : Bool) (storeChunk : Nat) (B : Backend)
-    (hB : ∀ loc m, B.metaDoc loc = .ok m → m.fits loc = true)
     (x : Bytes) (range : Option GetRange) (head : Bool) (reseg : Bytes → List Bytes)
-    (hmode : strict = true ∨ ∀ m, B.metaDoc x = .ok m → ¬ legacyShaped m) :
-    GetOk commits x (getObject A strict storeChunk B x range head reseg).1
-      (getObject A strict storeChunk B x range head reseg).2 := by
-  unfold getObject
-  cases hm : B.metaDoc x with
+    (doc : Except RErr Meta)
+    (hfit : ∀ m, doc = .ok m → m.fits x = true)
+    (hmode : strict = true ∨ ∀ m, doc = .ok m → ¬ legacyShaped m) :
+    GetOk commits x (getWith A strict storeChunk B x range head reseg doc).1
+      (getWith A strict storeChunk B x range head reseg doc).2 := by
+  unfold getWith
+  cases hm : doc with
   | error e => exact Or.inl rfl
   | ok m =>
     simp only
@@ -233,7 +234,7 @@ theorem getObject_ok {A : AEAD} {H : List SealRec} {commits : List Commit}
       simp only
       have hmode' : strict = true ∨ ¬ legacyShaped m := hmode.imp id (fun h => h m hm)
       obtain ⟨_, n, t, p, _, _, hd⟩ := verify_authenticated hv hmode'
-      obtain ⟨k, hk, hloc, hun⟩ := authenticated_is_commit hI hH (hB x m hm) hd
+      obtain ⟨k, hk, hloc, hun⟩ := authenticated_is_commit hI hH (hfit m hm) hd
       obtain ⟨hrc, hcs⟩ := chunkSound_of_commit hI hN hH hk hun storeChunk
       have hsize : m.size = k.plain.length := by
         rw [(unsealed_fields hun).1, hH.size k hk]
@@ -273,6 +274,49 @@ theorem getObject_ok {A : AEAD} {H : List SealRec} {commits : List Commit}
                 obtain ⟨j, hj, ho⟩ := this.1
                 exact Or.inr ⟨k, hk, hloc, plan, j, rfl, hj, ho⟩
 
+theorem getObject_ok {A : AEAD} {H : List SealRec} {commits : List Commit}
+    (hI : Ideal A H) (hN : NonceRespecting H) (hH : Honest H commits)
+    (strict : Bool) (storeChunk : Nat) (B : Backend)
+    (hB : ∀ loc m, B.metaDoc loc = .ok m → m.fits loc = true)
+    (x : Bytes) (range : Option GetRange) (head : Bool) (reseg : Bytes → List Bytes)
+    (hmode : strict = true ∨ ∀ m, B.metaDoc x = .ok m → ¬ legacyShaped m) :
+    GetOk commits x (getObject A strict storeChunk B x range head reseg).1
+      (getObject A strict storeChunk B x range head reseg).2 :=
+  getWith_ok hI hN hH strict storeChunk B x range head reseg (B.metaDoc x) (hB x) hmode
+
+/-- Warm instance: whatever document the cache holds, and whatever the re-resolve after NotFound reads,
+the outcome obeys the same bound — because `verify_metadata` runs in every iteration. -/
+theorem getObjectWarm_ok {A : AEAD} {H : List SealRec} {commits : List Commit}
+    (hI : Ideal A H) (hN : NonceRespecting H) (hH : Honest H commits)
+    (strict : Bool) (storeChunk : Nat) (B : Backend)
+    (hB : ∀ loc m, B.metaDoc loc = .ok m → m.fits loc = true)
+    (x : Bytes) (range : Option GetRange) (head : Bool) (reseg : Bytes → List Bytes)
+    (cached : Option Meta) (hcfit : ∀ m, cached = some m → m.fits x = true)
+    (hmode : strict = true ∨
+      ((∀ m, B.metaDoc x = .ok m → ¬ legacyShaped m) ∧ ∀ m, cached = some m → ¬ legacyShaped m)) :
+    GetOk commits x (getObjectWarm A strict storeChunk B x range head reseg cached).1
+      (getObjectWarm A strict storeChunk B x range head reseg cached).2 := by
+  have hcold := getObject_ok hI hN hH strict storeChunk B hB x range head reseg (hmode.imp id (·.1))
+  unfold getObjectWarm
+  cases cached with
+  | none => exact hcold
+  | some m0 =>
+    simp only
+    split
+    · exact hcold
+    · exact getWith_ok hI hN hH strict storeChunk B x range head reseg (.ok m0)
+        (fun m h => by injection h with h; exact hcfit m (by rw [h]))
+        (hmode.imp id (fun h m hm => by injection hm with hm; exact h.2 m (by rw [hm])))
+
+/-- When the payload the cached document points at is gone, a warm read *is* a cold read. -/
+theorem getObjectWarm_retry_eq_cold' (A : AEAD) (strict : Bool) (storeChunk : Nat) (B : Backend) (x : Bytes)
+    (range : Option GetRange) (head : Bool) (reseg : Bytes → List Bytes) (m0 : Meta)
+    (h : (getWith A strict storeChunk B x range head reseg (.ok m0)).2 = .fail .notFound []) :
+    getObjectWarm A strict storeChunk B x range head reseg (some m0) =
+      getObject A strict storeChunk B x range head reseg := by
+  unfold getObjectWarm
+  simp only [h, if_true]
+
 theorem listEntry_ok {A : AEAD} {H : List SealRec} {commits : List Commit}
     (hI : Ideal A H) (hH : Honest H commits) (strict : Bool) (B : Backend)
     (hB : ∀ loc m, B.metaDoc loc = .ok m → m.fits loc = true) (x : Bytes)
@@ -304,7 +348,7 @@ theorem listEntry_ok {A : AEAD} {H : List SealRec} {commits : List Commit}
 theorem headObject_listEntry {A : AEAD} {strict : Bool} {B : Backend} {x : Bytes}
     {r : Nat × Option Bytes × Option Nat} (h : headObject A strict B x = .ok r) :
     listEntry A strict B x = .ok r := by
-  unfold headObject at h
+  unfold headObject headWith at h
   unfold listEntry
   cases hm : B.metaDoc x with
   | error e => simp [hm] at h
